@@ -128,12 +128,17 @@ def showbias(
     """
     _validate_column_inputs(data, group_columns, label_column, score_column)
 
+    group_keys = None
     if isinstance(group_columns, str):
         groups = data[group_columns]
     elif isinstance(group_columns, Iterable):
-        groups = data.apply(
-            lambda row: "_".join(row[col] for col in group_columns), axis=1
-        )
+        # Each combination of group values is identified by its position among the
+        # sorted unique combinations. Joining the values to a string is ambiguous,
+        # if a value contains the separator.
+        group_columns = list(group_columns)
+        keys = pd.MultiIndex.from_frame(data[group_columns])
+        group_keys = keys.unique().sort_values()
+        groups = pd.Series(group_keys.get_indexer(keys), index=data.index)
     else:
         raise TypeError(
             f"Got unexpected type {type(group_columns)} value for `group_columns`"
@@ -161,7 +166,7 @@ def showbias(
         return getattr(sample.group_cm(**kwargs), metric)()
 
     group_names = score_object.groups
-    group_index = _get_group_index(group_names, group_columns)
+    group_index = _get_group_index(group_names, group_columns, group_keys)
     group_metrics = calculate_group_metric(score_object, **metric_kwargs)
 
     if normalize is not None:
@@ -298,27 +303,27 @@ def _validate_column_inputs(
     assert score_column in data.columns, "`score_column` not found in `data`"
 
 
-def _get_group_index(group_names: np.ndarray, group_columns: Union[str, List[str]]):
+def _get_group_index(
+    group_names: np.ndarray,
+    group_columns: Union[str, List[str]],
+    group_keys: Optional[pd.MultiIndex] = None,
+):
     """
     Creates a pandas index object for group identifiers.
 
     Args:
-        group_names: Array of strings identifying groups. For MultiIndex, strings should
-            be concatenated values separated by underscores.
-        group_columns: List of column names for grouping. The list's length should match
-            the number of elements in each group identifier when split by underscores.
-            Can be a single string for a simple Index.
+        group_names: Array identifying groups. For a single group column these are the
+            group values; for several group columns these are positions in group_keys.
+        group_columns: List of column names for grouping. Can be a single string for a
+            simple Index.
+        group_keys: The unique combinations of group values, if several group columns
+            are used.
 
     Returns:
         pd.Index or pd.MultiIndex: A pandas Index or MultiIndex object representing the
         group identifiers, suitable for indexing or grouping operations.
-
-    Raises:
-        ValueError: If `group_columns` is a list and the length of any group identifier
-        (when split) does not match the length of `group_columns`.
     """
-    if isinstance(group_columns, list):
-        group_index = list(zip(*[group_name.split("_") for group_name in group_names]))
-        return pd.MultiIndex.from_arrays(group_index, names=group_columns)
+    if group_keys is not None:
+        return group_keys[group_names].set_names(group_columns)
     else:
         return pd.Index(group_names, name=group_columns)
